@@ -643,6 +643,7 @@ func buildIntrinsics() map[string]intrinsic {
 	addBigIntrinsics(m)
 	addTomlIntrinsics(m)
 	addCLIIntrinsics(m)
+	addCalendarIntrinsics(m)
 	addMoreIntrinsics(m)
 	return m
 }
